@@ -44,17 +44,21 @@ pub struct C14Spec {
     pub phase1: Vec<SOp>,
     pub cfg: Cfg,
     pub max_executions: u64,
+    /// the first instance is dropped while its owner unwinds from a panic
+    /// (caught by the harness): `drop` must quiesce the store all the same
+    pub unwind_drop: bool,
 }
 
 fn vio(spec: &C14Spec, key: &str, what: String, extra: serde_json::Value) -> Violation {
     Violation {
         prop: spec.prop.clone(),
         key: key.to_string(),
-        what: format!("{} | first instance: [{}]; drop; open; purge; F; W; R; drop | cfg: {}", what, shist_short(&spec.phase1), spec.cfg.short()),
+        what: format!("{} | first instance: [{}]; {}; open; purge; F; W; R; drop | cfg: {}", what, shist_short(&spec.phase1), if spec.unwind_drop { "drop by unwinding from a panic" } else { "drop" }, spec.cfg.short()),
         replay: json!({
             "engine": "c14",
             "phase1": spec.phase1.iter().map(crate::schedx::sop_to_json).collect::<Vec<_>>(),
             "phase1_text": shist_short(&spec.phase1),
+            "unwind_drop": spec.unwind_drop,
             "cfg": cfg_to_json(&spec.cfg),
             "extra": extra,
         }),
@@ -135,7 +139,16 @@ fn body(spec: C14Spec, pl: Arc<Plan>, dir: String, out: Arc<Mutex<Out>>) {
     }
     sched::op_gate("drop1", OpGate::Always, sched::R_CHAN | sched::R_LOCK);
     sched::set_extra_bits(sched::R_CHAN | sched::R_LOCK);
-    drop(rl1);
+    if spec.unwind_drop {
+        // resume_unwind: a real unwinding (thread::panicking() is true inside
+        // the destructors) without going through the panic hook
+        let _ = std::panic::catch_unwind(std::panic::AssertUnwindSafe(move || {
+            let _owner = rl1;
+            std::panic::resume_unwind(Box::new("vx: owner of the store unwinds"));
+        }));
+    } else {
+        drop(rl1);
+    }
     sched::mark_sender_dropped(inst1);
     sched::set_extra_bits(0);
     sched::note("drop1-returned".to_string());
@@ -272,6 +285,7 @@ pub fn replay(r: &serde_json::Value) -> i32 {
         phase1: r["phase1"].as_array().map(|a| a.iter().map(crate::schedx::sop_from_json).collect()).unwrap_or_default(),
         cfg: crate::seqx::cfg_from_json(&r["cfg"]),
         max_executions: 1,
+        unwind_drop: r["unwind_drop"].as_bool().unwrap_or(false),
     };
     let mut vios = vec![];
     let mut stats = SchedStats::default();
